@@ -11,7 +11,7 @@ SIM = "real anemo Networks on an in-memory datagram fabric under tokio's virtual
 CHECKS = {
  "C01": ("exploration",
    "runtime monitor: forged-certificate corpus through the real verifiers + adversary endpoint vs. ground-truth address registry",
-   "Verifier level: replayed, re-signed, key-planted, expired, CA, ECDSA, truncated, garbage and every-offset single-byte-mutated certificates through the three real verifiers with handshake signatures by both keys; oracle: accepted certificate AND accepted signature by key K implies attributed PeerId = pub(K). End to end: an adversary endpoint holding only key Y dials / is dialed by real Networks with ten hostile identities while honest RPCs carry other parties' ids in every encoding; every PeerId attributed in handlers, responses, events and dial results must equal the ground-truth owner of the remote fabric address.",
+   "Verifier level: replayed, re-signed, key-planted (the other party's complete SubjectPublicKeyInfo byte for byte in serial number, a name attribute and an extension), expired, CA, ECDSA, truncated, garbage and every-offset single-byte-mutated certificates through the three real verifiers with handshake signatures by both keys; oracle: accepted certificate AND accepted signature by key K implies attributed PeerId = pub(K). End to end: an adversary endpoint holding only key Y dials / is dialed by real Networks with ten hostile identities while honest RPCs carry other parties' ids in every encoding; every PeerId attributed in handlers, responses, events and dial results must equal the ground-truth owner of the remote fabric address.",
    "Ed25519/TLS1.3 strength assumed; adversary limited to rustls' public traits + DER splicing (no malformed TLS records).",
    "DESIGN.md §4 C01", "E1 simnet + E3 component"),
  "C02": ("exploration",
@@ -21,7 +21,7 @@ CHECKS = {
    "DESIGN.md §4 C02", "E1 simnet"),
  "C03": ("exploration",
    "runtime monitor: racing pinned/unpinned dials with handshake-window drop rules vs. ground-truth registry",
-   "3-5 Networks plus an impostor replaying the expected peer's certificate; racing dials with right/wrong pins under drop rules on long-header packets, on the first 1-RTT datagrams, or random loss; oracle compares returned identity with the owner of the dialed address, checks membership in the caller's connected set during the call from timestamped events, and that parties that only met through a mismatching dial never list, announce or serve each other.",
+   "3-5 Networks plus an impostor replaying the expected peer's certificate; racing dials with right/wrong pins under drop rules on long-header packets, on the first 1-RTT datagrams, or random loss; dials include self-dials (a node's own address, pinned or not); oracle compares returned identity with the owner of the dialed address, checks membership in the caller's connected set during the call from timestamped events, and that parties that only met through a mismatching dial never list, announce or serve each other.",
    "One-hop topologies, no address migration.",
    "DESIGN.md §4 C03", "E1 simnet"),
  "C04": ("exploration",
@@ -31,27 +31,27 @@ CHECKS = {
    "DESIGN.md §4 C04", "E1 simnet"),
  "C05": ("exploration",
    "runtime monitor over simulated mutual dials + convergence/agreement oracle",
-   "Real mutual dials between two Networks with seeded start offsets, asymmetric latency, loss and duplication; the oracle checks listings, event sequences, RPCs in both directions, that both sides kept the same physical connection, a quiet period, and cross-scenario determinism of the survivor. Component level: all 24 registration orders of the four connection objects of a mutual dial (two per side) through the real ActivePeers, plus the pure tie-break function over random identity pairs (antisymmetric, order-independent). Real-socket level: two Networks on UDP loopback and a 4-worker runtime dial each other simultaneously for 150 (thorough 600) rounds per scenario; listings, alternating events, RPCs both ways and a quiet window are judged per round (a wrong listing is a verdict only when unchanged for 5 s).",
+   "Real mutual dials between two Networks with seeded start offsets (within 3 RTT, or up to 6 s late), asymmetric latency, loss and duplication, either side dialing explicitly or through the background dialer, optionally with a connection limit of 1-2; the oracle checks listings, event sequences, that from the moment both sides have listed each other there is never an instant at which neither does (sampled every virtual millisecond), RPCs in both directions, that both sides kept the same physical connection, a quiet period, and cross-scenario determinism of the survivor. Component level: all 24 registration orders of the four connection objects of a mutual dial (two per side) through the real ActivePeers, plus the pure tie-break function over random identity pairs (antisymmetric, order-independent). Real-socket level: two Networks on UDP loopback and a 4-worker runtime dial each other simultaneously for 150 (thorough 600) rounds per scenario; listings, alternating events, RPCs both ways and a quiet window are judged per round (a wrong listing is a verdict only when unchanged for 5 s).",
    "Interleavings are those the seeded fabric produces (reported as distinct signatures), not an enumeration.",
    "DESIGN.md §4 C05", "E1 simnet"),
  "C06": ("exploration",
    "runtime monitor: hostile stream programmes from an admitted adversary + panic hook + honest-traffic oracle",
-   "An admitted adversary endpoint runs seeded programmes of malformed, truncated (swept offset), oversized, bincode-bomb, complete requests with hostile route/header text (1-4 byte UTF-8 swept across byte offsets) abandoned before/while/after the handler runs, reset/stop/abandon, stream-flood, uni-stream, datagram and abrupt-close actions while honest RPCs run in both directions; monitors: process panic hook, is_closed(), C02 oracle and latency bound on honest RPCs, correctness of well-formed probes on fresh streams, and that every handler start attributed to the adversary equals a complete valid request it sent (independent parser).",
+   "An admitted adversary endpoint runs seeded programmes of malformed, truncated (swept offset), oversized, bincode-bomb, complete requests with hostile route/header text (1-4 byte UTF-8 swept across byte offsets) abandoned before/while/after the handler runs, reset/stop/abandon, stream-flood, uni-stream, datagram and abrupt-close actions while honest RPCs run in both directions; monitors: process panic hook, abort supervision (child process), livelock diagnosis (CPU-bound scenario thread with the same innermost library frame in 3 gdb samples), is_closed(), C02 oracle and latency bound on honest RPCs, correctness of well-formed probes on fresh streams, and that every handler start attributed to the adversary equals a complete valid request it sent (independent parser).",
    "Only inputs expressible through QUIC streams of an authenticated peer; memory exhaustion not judged.",
    "DESIGN.md §4 C06", "E1 simnet"),
  "C09": ("exploration",
    "runtime monitor: bounded-progress oracle at quiescent points of random fault histories (virtual time)",
-   "Random histories (dial, disconnect, restart, partition, one-way cut, loss burst, idle) among 3-5 Networks with idle timeout 2-10 s and keep-alive off/short/long; at quiescent points (T_q of fault-free virtual time) A lists B iff B lists A and every listed peer answers an RPC; disconnect() removes at once with LostPeer(Requested) and RPCs fail. One recorded finding (idle-expiry asymmetry) is classified by exact signature.",
+   "Random histories (dial, disconnect, restart, partition, one-way cut, loss burst, idle) among 3-5 Networks with idle timeout 2-10 s (or left unspecified: default 30 s) and keep-alive off/short/long; at quiescent points (T_q of fault-free virtual time) A lists B iff B lists A and every listed peer answers an RPC; disconnect() removes at once with LostPeer(Requested) and RPCs fail. One recorded finding (idle-expiry asymmetry) is classified by exact signature.",
    "'Eventually' restated as T_q = idle + keep-alive + 3 latency + 1 s; see known_findings.json.",
    "DESIGN.md §4 C09", "E1 simnet"),
  "C10": ("exploration",
    "runtime monitor vs. executable admission model",
-   "One listener (limit None/0/1/2/3/5) and 4-8 dialers with seeded, runtime-edited affinities; every non-overlapping arrival is compared with admit(affinity, limit, established); explicit and background dials by the limited node must ignore its limit; rejected dialers fail within the connect timeout and leave no trace.",
+   "One listener (limit None/0/1/2/3/5) and 4-8 dialers with seeded, runtime-edited affinities; every non-overlapping arrival (plain or naming the listener's identity) is compared with admit(affinity, limit, established), whatever the listener's background-dial cap and own pending dials; explicit and background dials by the limited node must ignore its limit; rejected dialers fail within the connect timeout and leave no trace.",
    "Simultaneous arrivals excluded as the property states.",
    "DESIGN.md §4 C10", "E1 simnet"),
  "C11": ("exploration",
    "runtime monitor vs. executable deadline model in exact virtual time",
-   "Two Networks with seeded outbound/inbound defaults, optional user outbound layer, RPCs through Network::rpc / Peer::rpc / Peer-as-Service with hostile timeout headers and scripted handler durations; the model C=min?(O,h), S=min?(I,h) decides outcome class, latency to +-3 ms of virtual time and handler lifetime.",
+   "Two Networks (builder setters in a key-derived order) with seeded outbound/inbound defaults, optional user outbound layer (pass-through, or holding each request for 120 ms-1.5 s), RPCs through Network::rpc / Peer::rpc / Peer-as-Service with hostile timeout headers and scripted handler durations; the model C=min?(O,h), S=min?(I,h) decides outcome class, latency to +-3 ms of virtual time and handler lifetime.",
    "Deadlines closer than 50 ms to each other are not judged.",
    "DESIGN.md §4 C11", "E1 simnet"),
  "C12": ("fault_enumeration",
@@ -66,7 +66,7 @@ CHECKS = {
    "DESIGN.md §4 C13", "E1 simnet"),
  "C14": ("exploration",
    "runtime monitor vs. name-acceptance model (verifiers + simnet + adversary)",
-   "Verifier-level triples (accepted names, certificate name, dialed name) and end-to-end dials among Networks with (primary, alternate) names, an adversarial dialer with every (hello name, certificate name) pair and an adversarial listener, all compared with the model.",
+   "Verifier-level triples (accepted names, certificate name, dialed name) and end-to-end dials among Networks with (primary, alternate) names, an adversarial dialer with every (hello name, certificate name) pair and an adversarial listener (dialed plainly and naming its real identity), all compared with the model.",
    "Case variants and wildcard certificates not judged.",
    "DESIGN.md §4 C14", "E1 simnet + E3 component"),
  "C15": ("exploration",
@@ -76,7 +76,7 @@ CHECKS = {
    "DESIGN.md §4 C15", "E1 simnet + E3 component"),
  "C07": ("exploration",
    "runtime monitor: independent hand-written wire parser/encoder + golden byte vectors vs. the real codecs",
-   "Thousands of seeded requests/responses through the real encoders/decoders over in-memory streams (whole, byte-at-a-time, random chunks); an independent parser/encoder of the established layout must consume the produced bytes exactly and agree on every field (byte equality for <=1 header); pinned golden vectors; round trip with empty extensions; every strict prefix rejected; wrong preamble/version/reserved byte/status rejected; mutated and random bytes never panic and are accepted only when the reference parser yields the same value.",
+   "Thousands of seeded requests/responses (bodies up to 2 MB plus sizes at powers of two up to 4 MiB and between 4 and 8 MiB; hostile-text routes) through the real encoders/decoders over in-memory streams (whole, byte-at-a-time, random chunks); an independent parser/encoder of the established layout must consume the produced bytes exactly and agree on every field (byte equality for <=1 header); pinned golden vectors; round trip with empty extensions; every strict prefix rejected; wrong preamble/version/reserved byte/status rejected; mutated and random bytes never panic and are accepted only when the reference parser yields the same value.",
    "Only Version::V1 exists; bincode's free-function configuration is mirrored by the reference parser.",
    "DESIGN.md §4 C07", "E3 component"),
  "C08": ("fault_enumeration",
@@ -101,12 +101,12 @@ CHECKS = {
    "DESIGN.md §4 C18", "E3 component"),
  "C19": ("exploration",
    "runtime monitor: admission timestamps vs. one-sided GCRA bound (wall clock)",
-   "RateLimitLayer (burst 1..20, interval 2..50 ms, both modes) around a service that timestamps admissions; concurrent saturating phase judged by k <= B + floor(((t_k - T_P)*1.001 + 1 ms)/tau); refusals are TooManyRequests with parsable wait-nanos and never reach the service; sequential phase checks 0 < hint <= full refill and that a retry after the hint is admitted; fresh peer gets its burst; 400k sequential refusals look for non-positive hints. One defect repaired (zero hint), one recorded (governor admits burst+1 after idle).",
+   "RateLimitLayer (burst 1..20, interval 2..50 ms, both modes) around a service that timestamps admissions; concurrent saturating phase judged by k <= B + floor(((t_k - T_P)*1.001 + 1 ms)/tau); refusals are TooManyRequests with parsable wait-nanos and never reach the service; sequential phase checks 0 < hint <= full refill and that a retry after the hint is admitted; fresh peer - and peers whose identity is one byte apart from an exhausted peer's - get their burst; 400k sequential refusals look for non-positive hints. One defect repaired (zero hint), one recorded (governor admits burst+1 after idle).",
    "Decided against the wall clock; the window is over-estimated so scheduling delays only make the oracle more lenient.",
    "DESIGN.md §4 C19", "E3 component"),
  "C20": ("exploration",
    "runtime monitor: three-way log comparison (authorizer, inner service, caller) under a multi-threaded workload",
-   "RequireAuthorizationLayer with a logging wrapper around the real AllowedPeers or a scripted authorizer, ONE layered service whose clones are driven by 2-8 tasks (1-64 clones each) on a 4-worker runtime; per request id: invoked iff accepted, exactly once; accepted => inner's response and the inner saw the authorizer's mutation; refused => the authorizer's response byte for byte; allow-list verdict/status vs. reference.",
+   "RequireAuthorizationLayer with a logging wrapper around the real AllowedPeers or a scripted authorizer, ONE layered service whose clones are driven by 2-8 tasks (1-64 clones each) on a 4-worker runtime; per request id: invoked iff accepted, exactly once (also for the 5% of response futures that are dropped unpolled; every eighth scenario stacks two layers of one authorizer type); accepted => inner's response and the inner saw the authorizer's mutation; refused => the authorizer's response byte for byte; allow-list verdict/status vs. reference.",
    "Response equality on (status, sorted headers, body length, 64-bit hash).",
    "DESIGN.md §4 C20", "E3 component"),
 }
